@@ -5,6 +5,7 @@ import (
 	"bytes"
 	"errors"
 	"fmt"
+	"hash/fnv"
 	"strings"
 	"sync"
 	"testing"
@@ -15,6 +16,7 @@ import (
 
 	"verif/internal/gx"
 	"verif/internal/ref"
+	"verif/internal/vet"
 	"verif/internal/vrt"
 )
 
@@ -66,6 +68,28 @@ var frontEnds = []frontEnd{
 		_, err := p.ParseReader(c.Reader(d))
 		return err
 	}},
+	// instances with a history of failed multi-line documents (internal/vet): line and column
+	// start again with every document
+	{"oj.Parser(veteran).Parse", false, func(d []byte, c gx.Chunking) error { _, err := vet.OjParser().Parse(d); return err }},
+	{"oj.Parser(veteran).ParseReader", true, func(d []byte, c gx.Chunking) error {
+		_, err := vet.OjParser().ParseReader(c.Reader(d))
+		return err
+	}},
+	{"oj.Tokenizer(veteran).Parse", false, func(d []byte, c gx.Chunking) error {
+		t := vet.OjTokenizer()
+		t.OnlyOne = true
+		return t.Parse(d, &oj.ZeroHandler{})
+	}},
+	{"oj.Tokenizer(veteran).Load", true, func(d []byte, c gx.Chunking) error {
+		t := vet.OjTokenizer()
+		t.OnlyOne = true
+		return t.Load(c.Reader(d), &oj.ZeroHandler{})
+	}},
+	{"gen.Parser(veteran).Parse", false, func(d []byte, c gx.Chunking) error { _, err := vet.GenParser().Parse(d); return err }},
+	{"gen.Parser(veteran).ParseReader", true, func(d []byte, c gx.Chunking) error {
+		_, err := vet.GenParser().ParseReader(c.Reader(d))
+		return err
+	}},
 }
 
 func position(err error) (line, col int, ok bool) {
@@ -111,7 +135,16 @@ func Run(cs Case, c *vrt.Ctx) {
 		c.Class("dead-byte")
 	}
 	c.Sample(map[string]any{"input": string(data), "chunk": cs.Chunk, "want": fmt.Sprintf("%d:%d", line, col)})
+	vh := fnv.New32a()
+	_, _ = vh.Write(data)
+	veterans := vh.Sum32()%4 == 0 // the veteran instances cost a history of calls each
+	if veterans {
+		c.Class("veteran-instances")
+	}
 	for _, fe := range frontEnds {
+		if !veterans && strings.Contains(fe.name, "(veteran)") {
+			continue
+		}
 		var err error
 		pv, stack := vrt.Catch(func() { err = fe.f(append([]byte(nil), data...), cs.Chunk) })
 		if pv != nil {
